@@ -4,12 +4,12 @@ go 1.26.0
 
 require (
 	github.com/anishathalye/porcupine v1.3.0
+	github.com/miekg/dns v1.1.72
 	github.com/semihalev/sdns v0.0.0
 )
 
 require (
 	github.com/cespare/xxhash/v2 v2.3.0 // indirect
-	github.com/miekg/dns v1.1.72 // indirect
 	golang.org/x/net v0.57.0 // indirect
 	golang.org/x/sys v0.47.0 // indirect
 )
